@@ -25,7 +25,7 @@ EPSILONS = [1e-12, 1e-12, 1e-6, 1e-3, 0.05, 0.2]
 
 @st.composite
 def rand_case(draw):
-    gs = draw(objs.gemini_spec())
+    gs = draw(objs.gemini_spec(foreign=True))
     big = draw(st.integers(0, 5)) == 0
     nmax = (30 if big else 14) if gs["base"] == "wasserstein" else (160 if big else 30)
     return {"g": gs, "p": draw(gens.p_spec(n_max=nmax, k_max=16 if big else 6, scales=SCALES)), "x": draw(gens.x_spec()),
@@ -34,7 +34,7 @@ def rand_case(draw):
 
 @st.composite
 def coord_case(draw):
-    gs = draw(objs.gemini_spec())
+    gs = draw(objs.gemini_spec(foreign=True))
     return {"g": gs, "p": draw(gens.p_spec(n_max=4, k_max=3, scales=SCALES[:5])), "x": draw(gens.x_spec()),
             "dseed": 0, "mode": "coords", "eps": draw(st.sampled_from(EPSILONS))}
 
@@ -59,6 +59,9 @@ def oracle_deriv(case):
     if v_plain != val:
         raise Violation(f"{label}: score {v_plain!r} without return_grad != {val!r} with return_grad")
     S = R.natural_scale(gs["base"], A)
+    if A is not None and float(np.max(np.abs(A))) < 1e-12:
+        # the affinity itself is rounding noise (cosine distances of collinear points, ~1e-17): so are score and gradient
+        return {"nontrivial": False, "classes": ["noise_level_affinity"], "counts": {"directions_accepted": 0, "kink_skipped": 0}}
     if gs["base"] == "mmd":
         # numeric differentiation of the float64 MMD score is meaningless near one-hot predictions (plateaus caused by
         # the cancellation a+c-2b): differentiate the same function evaluated difference-first in extended precision
@@ -117,7 +120,7 @@ def oracle_deriv(case):
 # ------------------------------------------------------------------------------------------------------------------
 @st.composite
 def clip_case(draw):
-    gs = draw(objs.gemini_spec())
+    gs = draw(objs.gemini_spec(foreign=True))
     n = draw(st.integers(1, 8))
     K = draw(st.integers(2, 5))
     cells = st.sampled_from(["soft", "zero", "one", "below_eps", "above"])
@@ -175,7 +178,7 @@ def oracle_clip(case):
 
 @st.composite
 def huge_case(draw):
-    gs = draw(objs.gemini_spec(bases=("tv", "kl", "hellinger", "chi2")))
+    gs = draw(objs.gemini_spec(foreign=True, bases=("tv", "kl", "hellinger", "chi2")))
     kind = draw(st.sampled_from(["rows", "rows_x_clusters"]))
     if kind == "rows":
         p = draw(gens.p_spec(n_min=1025, n_max=2400, k_min=2, k_max=4, scales=[0.5, 2.0, 8.0]))
@@ -187,7 +190,7 @@ def huge_case(draw):
 
 @st.composite
 def wass_large_case(draw):
-    gs = draw(objs.gemini_spec(bases=("wasserstein",), metric_forms=("named", "randdist")))
+    gs = draw(objs.gemini_spec(foreign=True, bases=("wasserstein",), metric_forms=("named", "randdist", "foreign")))
     return {"g": gs, "p": draw(gens.p_spec(n_min=40, n_max=150, k_min=2, k_max=6, scales=[0.5, 2.0, 8.0])),
             "x": draw(gens.x_spec(d_max=3, kinds=("normal", "grid"))), "dseed": draw(gens.seeds), "mode": "random",
             "eps": draw(st.sampled_from([1e-12, 1e-3]))}
